@@ -106,8 +106,9 @@ def mangle(name):
 
 
 class Tr:
-    def __init__(self, sig, methods):
+    def __init__(self, sig, methods, ent=None):
         self.sig = sig
+        self.ent = ent or {}
         self.pats = [(ast.parse(p['py'], mode='eval').body, p) for p in sig['patterns']]
         self.methods = methods          # python name -> (emit entry, FunctionDef)
 
@@ -191,7 +192,7 @@ class Tr:
             else:
                 raise Unsupported(n, 'argument %r missing' % p)
             out.append(paren(t))
-        return '%s (deref h v_self) %s' % (ent['coq'], ' '.join(out))
+        return '%s (deref h v_self) %s' % (self.ent.get('callee', {}).get(n.func.attr, ent['coq']), ' '.join(out))
 
     def stmts(self, body, env, ind):
         pad = '  ' * ind
@@ -219,8 +220,8 @@ class Tr:
                 raise Unsupported(s, 'nested function must be pure')
             env3 = dict(env)
             env3[s.name] = 'val'
-            return '%slet %s : userfn := fun %s => %s in\n%s' % (
-                pad, mangle(s.name), ' '.join(mangle(x.arg) for x in a.args), t, self.stmts(rest, env3, ind))
+            return '%slet %s : %s := fun %s => %s in\n%s' % (
+                pad, mangle(s.name), self.ent.get('fn_type', 'userfn'), ' '.join(mangle(x.arg) for x in a.args), t, self.stmts(rest, env3, ind))
         if isinstance(s, ast.Assign) and len(s.targets) == 1 and isinstance(s.targets[0], ast.Name):
             x = s.targets[0].id
             t, kind = self.expr(s.value, env)
@@ -295,7 +296,7 @@ def translate(sigpath, repo):
         a = fn.args
         if a.vararg or a.kwarg or a.kwonlyargs or a.posonlyargs or fn.decorator_list or not a.args or a.args[0].arg != 'self':
             raise Unsupported(fn, 'signature form of %s' % e['py'])
-        tr = Tr(sig, dict(methods))
+        tr = Tr(sig, dict(methods), e)
         env = {'self': 'ref'}
         binders = ['(self_t : table)']
         for p in a.args[1:]:
@@ -311,7 +312,7 @@ def translate(sigpath, repo):
             tr.const(d)
         term = tr.stmts(strip_doc(list(fn.body)), env, 1)
         out.append('')
-        out.append('Definition %s %s : outcome :=' % (e['coq'], ' '.join(binders)))
+        out.append('Definition %s %s : %s :=' % (e['coq'], ' '.join(binders), e.get('ret', 'outcome')))
         out.append('  let h := heap0 self_t in let v_self := RSelf in')
         out.append(term + '.')
         methods[e['py']] = (e, fn)
